@@ -203,6 +203,12 @@ def run(chk, w):
     # ---- OPT
     c09.opt_rule(chk, w, S, "C07-OPT")
 
+    # ---- WALKALL
+    rules.walkall_rule(chk, P, "C07-WALKALL", lambda f_: f_.relfile.startswith("src/state/bidib_state_setter"), 8)
+
+    # ---- DIR (shared with C09)
+    c09.dir_rule(chk, P, "C07-DIR")
+
 
 # ---------------------------------------------------------------------------------------------------------------
 def _lin(f, o, depth=0):
